@@ -16,6 +16,7 @@ package balance
 // AddBalance adds exactly `amount` to the address's balance and touches nothing else; a sum that does
 // not fit 64 bits is rejected; a failure changes nothing.
 //@ func (*PrefixBalanceHandler).AddBalance props C27
+//@   modifies gmap("vis", mu)[]
 //@   requires has(gmap("vis", mu), str(PrefixBalanceHandler.BalanceKey(p, addr))) ==> len(gmap("vis", mu)[str(PrefixBalanceHandler.BalanceKey(p, addr))]) == 8
 //@   let K = str(PrefixBalanceHandler.BalanceKey(p, addr))
 //@   ensures err == nil ==> has(gmap("vis", mu), K) && len(gmap("vis", mu)[K]) == 8 && balAt(gmap("vis", mu), K) == old(balAt(gmap("vis", mu), K)) + amount
